@@ -11,7 +11,7 @@ theorem getURL_root (h : Fam c A B T q fs) (fb : String) : getURL c "Query" q fb
 theorem mem_names {f : FieldSpec} {fs : List FieldSpec} (hf : f ∈ fs) : f.1 ∈ namesOf fs :=
   List.mem_map.mpr ⟨f, hf, rfl⟩
 
-theorem getURL_leaf (h : Fam c A B T q fs) (f : FieldSpec) (hf : f ∈ fs) (fb : String) :
+theorem getURL_leaf (h : FamT c A B T q fs) (f : FieldSpec) (hf : f ∈ fs) (fb : String) :
     getURL c T f.1 fb = .ok (if f.2.2 then B else A) := by
   have hb := h.hfb f.1 (mem_names hf)
   simp [getURL, hb, h.tumTn, h.tumTf f hf]
@@ -24,7 +24,7 @@ def stepsB (B T q : String) : List FieldSpec → List Step
   | [] => []
   | bs => [.mk B T (convertToNodeQuery T (leaves bs)) [q] []]
 
-theorem preExtract_T (h : Fam c A B T q fs) : preExtract c T = .ok () := by
+theorem preExtract_T (h : FamT c A B T q fs) : preExtract c T = .ok () := by
   obtain ⟨td, h1, h2⟩ := h.hschemaT
   simp [preExtract, h1, h2]
 
@@ -40,7 +40,7 @@ theorem leaves_nil : leaves [] = [] := rfl
 /-- **Stage 2a — extraction below `q`**: the owner's fields stay (after the helper `id`), the other
     service's fields are collected into ONE child step at insertion point `[q]`, wrapped in
     `node(id: $id) { ... on T { … } }`, whatever the interleaving. -/
-theorem extract_leaves (h : Fam c A B T q fs) : ∀ (rest accA accB : List FieldSpec),
+theorem extract_leaves (h : FamT c A B T q fs) : ∀ (rest accA accB : List FieldSpec),
     (∀ f ∈ rest, f ∈ fs) →
     extractLoop c [q] T A (leaves rest) (idField :: leaves accA, stepsB B T q accB)
       = .ok (idField :: leaves (accA ++ rest.filter (fun f => !f.2.2)), stepsB B T q (accB ++ rest.filter (fun f => f.2.2)))
@@ -138,7 +138,7 @@ theorem routeRoot_Q (h : Fam c A B T q fs) : routeRoot c [Q' T q fs] "Query" = .
 /-- extraction at the root for service `A` -/
 theorem extract_root (h : Fam c A B T q fs) :
     extractSels c [] "Query" [Q' T q fs] A = .ok ([Qown T q fs], stepsB B T q (fsB fs)) := by
-  have hextract := extract_leaves h fs [] [] (fun f hf => hf)
+  have hextract := extract_leaves h.toFamT fs [] [] (fun f hf => hf)
   have hidstep : extractSel c [q] T A idField ([], []) = .ok ([idField], []) := by
     simp [idField, extractSel, getURL, isBuiltinName, h.tumTn, h.tumTid]
   have hinner : extractLoop c [q] T A (idField :: leaves fs) ([], [])
@@ -154,7 +154,7 @@ theorem extract_root (h : Fam c A B T q fs) :
     unfold Q'
     rw [extractSel]
     simp only [getURL_root h, beq_self_eq_true, ↓reduceIte, List.isEmpty_cons, Bool.false_eq_true, TypeRef.name,
-      preExtract_T h, bind, Except.bind, List.nil_append]
+      preExtract_T h.toFamT, bind, Except.bind, List.nil_append]
     rw [hinner]
     simp only [hfinT, Qown]
   unfold extractSels
